@@ -56,6 +56,7 @@ type Engine struct {
 	smallSet      map[int]bool
 	smallMemo     map[int]bool
 	nonNegSet     map[int]bool
+	topLits       map[int]bool // path-condition literals stated unconditionally by the contract (see assumeStated)
 	errT          types.Type
 	deadline      time.Time
 	feasCalls     int
@@ -99,7 +100,7 @@ func newEngine(w *World, h *Harness) *Engine {
 		nextFn:        1 << 32,
 		usedContracts: map[string]bool{}, usedLoops: map[string]bool{}, realFns: map[string]bool{},
 		ifaceAsserts: map[string]types.Type{}, litIDs: map[string]uint64{},
-		smallSet: map[int]bool{}, smallMemo: map[int]bool{}, nonNegSet: map[int]bool{},
+		smallSet: map[int]bool{}, smallMemo: map[int]bool{}, nonNegSet: map[int]bool{}, topLits: map[int]bool{},
 	}
 	e.deadline = time.Now().Add(time.Duration(w.GenSeconds) * time.Second)
 	e.M.deadline = e.deadline
